@@ -215,7 +215,7 @@ func runBehaviour(b *Behaviour, opts *MatOpts, src string, onCall func(k int, c 
 		if session != nil && pan == "" {
 			line = tr.project(session, sprint)
 		} else {
-			line = &TLine{Status: "none", Runs: []TRun{}, Events: []TEvent{}}
+			line = &TLine{Status: "none", Runs: []TRun{}, Events: []TEvent{}, Segs: []PSeg{}}
 		}
 		line.Src, line.K, line.Op, line.Kind = src, k, c.Op, c.Kind
 		line.Err = errCode(cerr)
